@@ -27,6 +27,16 @@ assert NAMES == sorted(NAMES)
 DOCK_NAMES = sorted(["NRPS-COM_Nterm", "NRPS-COM_Cterm", "PKS_Docking_Cterm", "PKS_Docking_Nterm",
                      "PKS_KS", "Condensation", "NRPS-COM_Nterm2", "PKS_Docking"])
 HM_IDS = ["PF00001", "PF00002", "PF00003", "PF00004"]
+# sub-type profiles for find_subtypes; the callback _strip_trailing_numbers turns ST_2 / ST_3 into ST
+SUB_NAMES = sorted(["Enediyne-KS", "Iterative-KS", "Modular-KS", "ST", "ST_2", "ST_3", "Trans-AT-KS", "hyb_KS"])
+
+
+def _strip_name(name: str) -> str:
+    parts = name.rsplit("_", 1)
+    return parts[0] if len(parts) == 2 and parts[1].isdigit() else name
+
+
+SUB_STRIP = [SUB_NAMES.index(_strip_name(n)) for n in SUB_NAMES]
 
 KF_OVERLAP = "KF-C13-greedy-overlap"
 KF_ORPHAN = "KF-C13-greedy-orphan"
@@ -102,6 +112,15 @@ class C13(Property):
         ("antismash/common/hmm_rule_parser/cluster_prediction.py", "filter_results"),
         ("antismash/common/hmm_rule_parser/cluster_prediction.py", "filter_result_multiple"),
         ("antismash/detection/nrps_pks_domains/domain_identification.py", "filter_nonterminal_docking_domains"),
+        ("antismash/detection/nrps_pks_domains/domain_identification.py", "find_domains"),
+        ("antismash/detection/nrps_pks_domains/domain_identification.py", "find_ab_motifs"),
+        ("antismash/detection/nrps_pks_domains/domain_identification.py", "find_subtypes"),
+        ("antismash/detection/nrps_pks_domains/domain_identification.py", "_strip_trailing_numbers"),
+        ("antismash/common/hmmscan_refinement.py", "HMMResult.overlaps_with"),
+        ("antismash/common/hmmscan_refinement.py", "HMMResult.add_internal_hits"),
+        ("antismash/common/hmm_rule_parser/cluster_prediction.py", "find_hmmer_hits"),
+        ("antismash/common/hmmer.py", "build_hits"),
+        ("antismash/common/hmmer.py", "run_hmmer"),
     ]
     RULE = ("hit multisets on one protein: 1-7 hits over 1-4 profiles with hmm lengths from {5,6,9,10,15,20,30,100} "
             "(multiples of 5/2/3 so the 0.2/0.5/1.5/(1/3) thresholds are hit exactly), intervals on a small grid or "
@@ -125,8 +144,9 @@ class C13(Property):
         "enumeration (gather_by_query patched to return the list) in addition to the unpatched call",
         "hmmer: hits equal in (identifier, start, end, score) are generated equal in every other field (the code's "
         "own docstring treats them as the same hit)",
-        "filter_results: when two hits of a gene tie in bitscore the survivor depends on the enumeration of a set of "
-        "objects (memory addresses); on such inputs the correspondence accepts any output satisfying the spec",
+        "filter_results: HSPs are distinct objects (identity equality), modelled by a unique uid per hit; the "
+        "executable closure/position functions linkedB/prefersB run by the driver are unverified twins of the "
+        "Props Linked/Prefers the theorems use",
         "Python sorted() is a stable sort; dict/defaultdict keep insertion order",
     ]
 
@@ -226,6 +246,14 @@ class C13(Property):
             yield self.rand_equiv(rng)
         for _ in range(500 * mult):
             yield self.rand_dock(rng)
+        for _ in range(1200 * mult):
+            yield self.rand_cp(rng)
+        for _ in range(1000 * mult):
+            yield self.rand_runhmmer(rng)
+        for _ in range(800 * mult):
+            yield self.rand_domains(rng)
+        for _ in range(800 * mult):
+            yield self.rand_subtypes(rng)
         if deep:
             yield from self.small_scope(rng, full=(tier == "thorough"))
 
@@ -322,6 +350,90 @@ class C13(Property):
                 end = start + 1
             hits.append([p, start, end, 1, 10])
         return {"kind": "dock", "L": length, "hits": hits}
+
+    # callers ------------------------------------------------------------------------------------
+    def rand_cp(self, rng: random.Random) -> Dict[str, Any]:
+        """raw hmmsearch HSPs of a record: [gene, uid, prof, start, end, sc] in hmmsearch order"""
+        cut = [rng.choice([0, 100, 150, 200, 300]) for _ in NAMES]
+        ngenes = rng.choice([1, 2, 3])
+        raw: List[List[int]] = []
+        uid = 0
+        for g in range(ngenes):
+            n = rng.choice([1, 2, 3, 4, 5, 6])
+            for f in self.rand_fhits(rng, n, 0, distinct=rng.random() < 0.6):
+                sc = f[4]
+                if rng.random() < 0.3:
+                    sc = cut[f[1]] + rng.choice([-1, 0, 1])     # around the signature's cut-off
+                raw.append([g, uid, f[1], f[2], f[3], sc])
+                uid += 1
+        rng.shuffle(raw)
+        eq = []
+        for _ in range(rng.choice([0, 1, 1, 2])):
+            eq.append(sorted(rng.sample(range(len(NAMES)), rng.choice([2, 3, 4]))))
+        return {"kind": "cp", "cut": cut, "eq": eq, "raw": raw, "ngenes": ngenes, "pseed": rng.randrange(1 << 30)}
+
+    def rand_runhmmer(self, rng: random.Random) -> Dict[str, Any]:
+        """raw hmmscan HSPs: [gene, ident, start, end, sc (quarters), ev] + the score / e-value cuts"""
+        base = self.rand_hmmer(rng)
+        cut = [c or 8 for c in base["cut"]]
+        min_score = rng.choice([0, 8, 12, 20])
+        max_ev = rng.choice([2, 3, 5])
+        raw = []
+        for g in range(rng.choice([1, 2, 3])):
+            hits = self.rand_hmmer(rng)["hits"]
+            for h in hits:
+                sc = h[3] if h[3] > 0 else 8
+                if rng.random() < 0.3:
+                    sc = max(1, min_score + rng.choice([-1, 0, 1]))
+                # the e-value is a function of the modelled fields (equal hits are equal objects)
+                raw.append([g, h[0], h[1], h[2], sc, [1, 2, 3, 5][(h[0] + h[1] + 3 * h[2] + sc) % 4]])
+        rng.shuffle(raw)
+        return {"kind": "runhmmer", "cut": cut, "min": min_score, "maxev": max_ev, "raw": raw,
+                "pseed": rng.randrange(1 << 30)}
+
+    def rand_domains(self, rng: random.Random) -> Dict[str, Any]:
+        lens = [rng.choice(self.LENS) for _ in DOCK_NAMES]
+        genes, lengths = [], []
+        for _ in range(rng.choice([1, 2, 3])):
+            hits = [h[:] for h in self.rand_hits(rng, lens + [10] * 8, nmax=6)]
+            for h in hits:
+                h[0] = h[0] % len(DOCK_NAMES) if rng.random() < 0.5 else rng.randrange(len(DOCK_NAMES))
+            top = max(h[2] for h in hits)
+            lengths.append(top + rng.choice([0, 1, 30, 49, 50, 51, 80]))
+            if rng.random() < 0.5:      # push a hit to the 50-residue bounds
+                h = rng.choice(hits)
+                ln = h[2] - h[1]
+                h[1] = rng.choice([48, 49, 50, 51])
+                h[2] = h[1] + ln
+                lengths[-1] = max(lengths[-1], h[2] + rng.choice([49, 50, 51]))
+            genes.append(hits)
+        return {"kind": "domains", "lens": lens, "genes": genes, "L": lengths, "pseed": rng.randrange(1 << 30)}
+
+    def rand_subtypes(self, rng: random.Random) -> Dict[str, Any]:
+        target = DOCK_NAMES.index("PKS_KS")
+        lens = [rng.choice([10, 20, 30, 100]) for _ in SUB_NAMES]
+        existing, genes = [], []
+        for _ in range(rng.choice([1, 2, 3])):
+            doms = []
+            pos = rng.choice([0, 5, 20])
+            for _ in range(rng.choice([0, 1, 2, 3])):
+                ln = rng.choice([20, 40, 60])
+                doms.append([target if rng.random() < 0.7 else rng.randrange(len(DOCK_NAMES)), pos, pos + ln, 1, 300])
+                pos += ln + rng.choice([-5, 0, 10, 40])
+            raw = []
+            for _ in range(rng.choice([0, 1, 2, 3, 4])):
+                p = rng.randrange(len(SUB_NAMES))
+                if doms and rng.random() < 0.8:
+                    d = rng.choice(doms)
+                    start = max(0, rng.choice([d[1] - 10, d[1], d[1] + 5, d[2] - 1, d[2], d[2] + 1]))
+                else:
+                    start = rng.randrange(0, 200)
+                ln = rng.choice([1, lens[p] // 2 + 1, lens[p], 2 * lens[p]])
+                raw.append([p, start, start + max(1, ln), rng.choice(self.EVS), rng.choice(self.SCORES)])
+            existing.append(doms)
+            genes.append(raw)
+        return {"kind": "subtypes", "lens": lens, "target": target, "callback": rng.random() < 0.6,
+                "existing": existing, "genes": genes, "pseed": rng.randrange(1 << 30)}
 
     # exhaustive family -----------------------------------------------------------------------
     def small_scope(self, rng: random.Random, full: bool) -> Iterator[Dict[str, Any]]:
@@ -494,10 +606,241 @@ class C13(Property):
         if outs is None:
             return {"out": None}
         obs = {"out": outs[0], "results_same": len(outs) == len(genes)}
+        # the survivors of a gene do not depend on the order of its hit list, unless two of its hits tie
+        first = case["hits"]
+        if len(set(f[4] for f in first)) == len(first) and len(first) > 1:
+            prng = random.Random(len(first) * 7919 + first[0][4])
+            orders = [first[::-1]]
+            for _ in range(4):
+                o = list(first)
+                prng.shuffle(o)
+                orders.append(o)
+            for o in orders:
+                got = run([o])
+                if got is None or sorted(got[0]) != sorted(outs[0]):
+                    obs["perm_bad"] = {"order": o, "out": got}
+                    break
         if len(genes) > 1:
             obs["genes"] = outs[:len(genes)]
             obs["alone"] = [run([g]) for g in genes]
         return obs
+
+    # callers: the real functions on stubbed raw hit lists ---------------------------------------
+    @staticmethod
+    def _group(raw: List[List[int]], ngenes: Optional[int] = None) -> List[List[List[int]]]:
+        n = (max((r[0] for r in raw), default=-1) + 1) if ngenes is None else ngenes
+        genes: List[List[List[int]]] = [[] for _ in range(n)]
+        for r in raw:
+            genes[r[0]].append(r[1:])
+        return genes
+
+    def impl_cp(self, case: Dict[str, Any]) -> Dict[str, Any]:
+        from antismash.common.hmm_rule_parser import cluster_prediction as cp
+
+        class Sig:
+            def __init__(self, cutoff: float) -> None:
+                self.cutoff = cutoff
+                self.seed_count = 3
+        sigs = {NAMES[i]: Sig(c / 10) for i, c in enumerate(case["cut"])}
+        eq = [set(NAMES[p] for p in g) for g in case["eq"]]
+
+        class RunResult:
+            def __init__(self, hsp: Any) -> None:
+                self.accession = "ACC0000.1"
+                self.hsps = [hsp]
+
+        def run(raw: List[List[int]]) -> Any:
+            results = []
+            for g, uid, prof, start, end, sc in raw:
+                hsp = _CPHit(f"g{g}", [uid, prof, start, end, sc])
+                hsp.query_start = uid          # carried through HMMerHit.from_hsp: identifies the HSP
+                hsp.query_end = uid + 1
+                results.append(RunResult(hsp))
+            saved = (cp.run_hmmsearch, cp.fasta.get_fasta_from_record)
+            cp.run_hmmsearch = lambda *_a, **_k: results
+            cp.fasta.get_fasta_from_record = lambda _r: ""
+            try:
+                out = cp.find_hmmer_hits(None, sigs, "db", eq)
+            except AssertionError:
+                return None
+            finally:
+                cp.run_hmmsearch, cp.fasta.get_fasta_from_record = saved
+            assert all(out.values())
+            return [[h.query_start for h in out.get(f"g{g}", [])] for g in range(case["ngenes"])]
+        base = run(case["raw"])
+        obs: Dict[str, Any] = {"genes": base, "perm_bad": None}
+        if base is not None:
+            prng = random.Random(case.get("pseed", 0))
+            for _ in range(4):
+                o = list(case["raw"])
+                prng.shuffle(o)
+                got = run(o)
+                # a gene without tied bitscores keeps the same hits whatever the order of the raw list
+                for g, hits in enumerate(self._group(case["raw"], case["ngenes"])):
+                    if len(set(h[4] for h in hits)) == len(hits):
+                        if got is None or sorted(got[g]) != sorted(base[g]):
+                            obs["perm_bad"] = {"order": o, "gene": g, "out": got}
+                if obs["perm_bad"]:
+                    break
+        return obs
+
+    def impl_runhmmer(self, case: Dict[str, Any]) -> Dict[str, Any]:
+        from antismash.common import hmmer
+        ngenes = max((r[0] for r in case["raw"]), default=-1) + 1
+
+        class Feature:
+            def __init__(self, name: str) -> None:
+                self.name = name
+                self.translation = "M" * 400
+
+            def get_name(self) -> str:
+                return self.name
+
+            def get_sub_location_from_protein_coordinates(self, start: int, end: int) -> str:
+                return f"[{start}:{end}]"
+
+        class Record:
+            id = "rec"
+
+            def __init__(self) -> None:
+                self.m = {f"g{g}": Feature(f"g{g}") for g in range(ngenes)}
+
+            def get_cds_name_mapping(self) -> Dict[str, Any]:
+                return self.m
+
+        class HSP:
+            def __init__(self, r: List[int]) -> None:
+                g, ident, start, end, sc, ev = r
+                self.query_id = f"g{g}"
+                self.hit_id = HM_IDS[ident]
+                self.bitscore = sc / 4
+                self.evalue = math.ldexp(ev, -60)
+                self.hit_description = "d"
+                self.query_start = start
+                self.query_end = end
+
+        class Result:
+            def __init__(self, hsp: Any) -> None:
+                self.id = "q"
+                self.hsps = [hsp]
+        cutoffs = {HM_IDS[i]: c / 4 for i, c in enumerate(case["cut"])}
+
+        def run(raw: List[List[int]]) -> Any:
+            results = [Result(HSP(r)) for r in raw]
+            record = Record()
+            saved = (hmmer.subprocessing.run_hmmscan, hmmer.pfamdb.get_pfam_id_from_name,
+                     hmmer.pfamdb.get_pfam_cutoffs, hmmer.fasta.get_fasta_from_features)
+            hmmer.subprocessing.run_hmmscan = lambda *_a, **_k: results
+            hmmer.pfamdb.get_pfam_id_from_name = lambda name, _db: name
+            hmmer.pfamdb.get_pfam_cutoffs = lambda _db: cutoffs
+            hmmer.fasta.get_fasta_from_features = lambda _f: ""
+            try:
+                res = hmmer.run_hmmer(record, list(record.m.values()), math.ldexp(case["maxev"], -60),
+                                      case["min"] / 4, "/", "tool")
+            finally:
+                (hmmer.subprocessing.run_hmmscan, hmmer.pfamdb.get_pfam_id_from_name,
+                 hmmer.pfamdb.get_pfam_cutoffs, hmmer.fasta.get_fasta_from_features) = saved
+            out: List[List[List[int]]] = [[] for _ in range(ngenes)]
+            for h in res.hits:
+                out[int(h.locus_tag[1:])].append([HM_IDS.index(h.identifier), h.protein_start, h.protein_end,
+                                                 int(round(h.score * 4))])
+            return out
+        base = run(case["raw"])
+        prng = random.Random(case.get("pseed", 0))
+        bad = None
+        for _ in range(4):
+            o = list(case["raw"])
+            prng.shuffle(o)
+            got = run(o)
+            if got != base:
+                bad = {"order": o, "out": got}
+                break
+        return {"genes": base, "perm_bad": bad}
+
+    @staticmethod
+    def _qr(genes: List[List[List[int]]], names: List[str]) -> List[Any]:
+        class HSP:
+            def __init__(self, query_id: str, h: List[int]) -> None:
+                self.query_id = query_id
+                self.hit_id = names[h[0]]
+                self.query_start = h[1]
+                self.query_end = h[2]
+                self.evalue = math.ldexp(h[3], -60)
+                self.bitscore = h[4] / 10
+        return [_QueryResult([HSP(f"g{g}", h)]) for g, hits in enumerate(genes) for h in hits]
+
+    def impl_domains(self, case: Dict[str, Any]) -> Dict[str, Any]:
+        from antismash.detection.nrps_pks_domains import domain_identification as di
+        lens = dict(zip(DOCK_NAMES, case["lens"]))
+        rec = _RecordStub({f"g{g}": length for g, length in enumerate(case["L"])})
+
+        def run(genes: List[List[List[int]]]) -> Any:
+            results = self._qr(genes, DOCK_NAMES)
+            saved = (di.subprocessing.run_hmmscan, di.utils.get_hmm_lengths)
+            di.subprocessing.run_hmmscan = lambda *_a, **_k: results
+            di.utils.get_hmm_lengths = lambda _f: lens
+            try:
+                doms = di.find_domains("fasta", rec)
+                motifs = di.find_ab_motifs("fasta")
+            finally:
+                di.subprocessing.run_hmmscan, di.utils.get_hmm_lengths = saved
+            n = len(genes)
+            return ([[hit_json(r, DOCK_NAMES) for r in doms.get(f"g{g}", [])] for g in range(n)],
+                    [[hit_json(r, DOCK_NAMES) for r in motifs.get(f"g{g}", [])] for g in range(n)])
+        base = run(case["genes"])
+        prng = random.Random(case.get("pseed", 0))
+        bad = None
+        for _ in range(3):
+            shuffled = []
+            for g in case["genes"]:
+                o = list(g)
+                prng.shuffle(o)
+                shuffled.append(o)
+            got = run(shuffled)
+            if got != base:
+                bad = {"order": shuffled, "out": got}
+                break
+        return {"doms": base[0], "motifs": base[1], "perm_bad": bad}
+
+    def impl_subtypes(self, case: Dict[str, Any]) -> Dict[str, Any]:
+        from antismash.detection.nrps_pks_domains import domain_identification as di
+        lens = dict(zip(SUB_NAMES, case["lens"]))
+
+        class Rec:
+            def get_cds_by_name(self, name: str) -> str:
+                return name
+        callback = di._strip_trailing_numbers if case["callback"] else None
+
+        def run(genes: List[List[List[int]]]) -> Any:
+            existing = {f"g{g}": [hit_obj(d, DOCK_NAMES) for d in doms] for g, doms in enumerate(case["existing"])}
+            results = self._qr(genes, SUB_NAMES)
+            saved = (di.subprocessing.run_hmmscan, di.utils.get_hmm_lengths, di.get_fasta_from_features)
+            di.subprocessing.run_hmmscan = lambda *_a, **_k: results
+            di.utils.get_hmm_lengths = lambda _f: lens
+            di.get_fasta_from_features = lambda _f: ""
+            try:
+                out = di.find_subtypes(DOCK_NAMES[case["target"]], "db", existing, Rec(), modifier_callback=callback)
+            finally:
+                di.subprocessing.run_hmmscan, di.utils.get_hmm_lengths, di.get_fasta_from_features = saved
+            n = len(genes)
+            res = [[hit_json(r, SUB_NAMES) for r in out.get(f"g{g}", [])] for g in range(n)]
+            internal = [[[hit_json(r, SUB_NAMES) for r in d.internal_hits] for d in existing[f"g{g}"]
+                         if d.hit_id == DOCK_NAMES[case["target"]]] for g in range(n)]
+            return res, internal
+        base = run(case["genes"])
+        prng = random.Random(case.get("pseed", 0))
+        bad = None
+        for _ in range(3):
+            shuffled = []
+            for g in case["genes"]:
+                o = list(g)
+                prng.shuffle(o)
+                shuffled.append(o)
+            got = run(shuffled)
+            if got != base:
+                bad = {"order": shuffled, "out": got}
+                break
+        return {"out": base[0], "internal": base[1], "perm_bad": bad}
 
     # ------------------------------------------------------------------ driver + judge
     def driver_line(self, case: Dict[str, Any], obs: Dict[str, Any]) -> Optional[Dict[str, Any]]:
@@ -519,6 +862,16 @@ class C13(Property):
             line.update({"genes": case["genes"]})
         elif kind == "equiv":
             line.update({"eq": case["eq"], "hits": case["hits"], "impl": obs.get("out"), "others": case.get("others", [])})
+        elif kind == "cp":
+            line.update({"cut": case["cut"], "eq": case["eq"], "genes": self._group(case["raw"], case["ngenes"])})
+        elif kind == "runhmmer":
+            line.update({"cut": case["cut"], "min": case["min"], "maxev": case["maxev"], "genes": self._group(case["raw"])})
+        elif kind == "domains":
+            line.update({"lens": case["lens"], "names": DOCK_NAMES, "L": case["L"], "genes": case["genes"]})
+        elif kind == "subtypes":
+            line.update({"lens": case["lens"], "target": case["target"],
+                         "strip": SUB_STRIP if case["callback"] else list(range(len(SUB_NAMES))),
+                         "existing": case["existing"], "genes": case["genes"]})
         return line
 
     def judge(self, case: Dict[str, Any], obs: Dict[str, Any], drv: Optional[Dict[str, Any]]) -> Judgement:
@@ -545,14 +898,12 @@ class C13(Property):
         elif not spec["overlap"]:
             spec_ok = False
             detail = f"two returned hits overlap by more than 20% of the longer profile: {obs['out']}"
-            if corr and not mspec["overlap"] and not drv["scope"]:
-                known = KF_OVERLAP
         if not corr and not detail:
             detail = f"model {drv['model']} vs implementation {obs['out']}"
         tags = ("refine", "nb" if case["nb"] else "dl", "n%d" % min(len(case["hits"]), 8),
                 "uniform-len" if drv["scope"] else "mixed-len", "clear" if spec["clear"] else "not-clear",
                 "out%d" % min(len(obs["out"]), 4))
-        return Judgement(corr, spec_ok, in_scope=bool(drv["scope"]), known=known,
+        return Judgement(corr, spec_ok, in_scope=True, known=known,
                          nontrivial=bool(drv["nontrivial"]), tags=tags, detail=detail)
 
     def judge_remov(self, case: Dict[str, Any], obs: Dict[str, Any], drv: Dict[str, Any]) -> Judgement:
@@ -568,17 +919,13 @@ class C13(Property):
                 spec_ok, detail = False, f"output not a position-ordered selection of the input: {obs['out']}"
             elif not spec["overlap"]:
                 spec_ok, detail = False, f"kept hits overlap by more than the margin: {obs['out']}"
-                if corr and not mspec["overlap"] and not drv["scope"]:
-                    known = KF_OVERLAP
             elif not spec["justified"]:
                 spec_ok, detail = False, f"a hit was dropped although no kept hit collides with it: {obs['out']}"
-                if corr and not mspec["justified"]:
-                    known = KF_ORPHAN
         if not corr and not detail:
             detail = f"model {drv['model']} vs implementation {obs['out']}"
         tags = ("remov", "sorted-input" if drv["input_sorted"] else "unsorted-input",
                 "uniform-len" if drv["scope"] else "mixed-len")
-        return Judgement(corr, spec_ok, in_scope=bool(drv["scope"]), known=known,
+        return Judgement(corr, spec_ok, in_scope=True, known=known,
                          nontrivial=bool(drv["nontrivial"]), tags=tags, detail=detail)
 
     def judge_incomplete(self, case: Dict[str, Any], obs: Dict[str, Any], drv: Dict[str, Any]) -> Judgement:
@@ -637,12 +984,11 @@ class C13(Property):
     def judge_equiv(self, case: Dict[str, Any], obs: Dict[str, Any], drv: Dict[str, Any]) -> Judgement:
         tie = bool(drv["tie"])
         if obs["out"] is None:
-            # the assertion `results_by_id[cds]` fired: only possible when scores tie
-            corr = drv["model"] is None or tie
-            return Judgement(corr, tie, tags=("equiv", "assertion"),
-                             detail="" if corr and tie else f"assertion without a score tie; model {drv['model']}")
+            # the assertion `results_by_id[cds]` fired: impossible (theorem equivalence_never_empties_a_gene)
+            return Judgement(drv["model"] is None, False, tags=("equiv", "assertion"),
+                             detail=f"the gene lost all its hits (assertion); model {drv['model']}")
         spec_ok = bool(drv["spec"]["ok"]) and obs["results_same"]
-        corr = obs["out"] == drv["model"] or (tie and spec_ok)
+        corr = obs["out"] == drv["model"]
         detail = ""
         if "genes" in obs:
             # each gene of a record is filtered on its own hits only (theorem equivalence_filter_is_per_gene)
@@ -650,8 +996,10 @@ class C13(Property):
             if obs["genes"] != alone:
                 spec_ok = False
                 detail = f"a gene's result depends on the other genes: together {obs['genes']}, each alone {alone}"
-            if not drv["tie_any"]:
-                corr = corr and obs["genes"] == drv["model_genes"]
+            corr = corr and obs["genes"] == drv["model_genes"]
+        if obs.get("perm_bad") is not None:
+            spec_ok = False
+            detail = f"order dependence: {obs['out']} vs {obs['perm_bad']}"
         if not spec_ok and not detail:
             detail = f"spec on implementation output {obs['out']}: {drv['spec']} results_same={obs['results_same']}"
         elif not corr and not detail:
@@ -660,6 +1008,66 @@ class C13(Property):
                          tags=("equiv", "tie" if tie else "distinct", "eq%d" % len(case["eq"]),
                                "multi-gene" if "genes" in obs else "one-gene"), detail=detail)
 
+    def judge_cp(self, case: Dict[str, Any], obs: Dict[str, Any], drv: Dict[str, Any]) -> Judgement:
+        if obs["genes"] is None:
+            return Judgement(False, False, tags=("cp", "assertion"), detail="find_hmmer_hits: a gene lost all its hits")
+        corr = obs["genes"] == drv["model"]
+        spec_ok, detail = True, ""
+        if obs["perm_bad"] is not None:
+            spec_ok, detail = False, f"order dependence without score ties: {obs['genes']} vs {obs['perm_bad']}"
+        # returned hits: above the signature's cut-off, one per profile, ordered by start
+        raw = {r[1]: r for r in case["raw"]}
+        for g, uids_ in enumerate(obs["genes"]):
+            hits = [raw[u] for u in uids_]
+            if any(h[0] != g or not h[5] > case["cut"][h[2]] for h in hits) \
+                    or len(set(h[2] for h in hits)) != len(hits) or [h[3] for h in hits] != sorted(h[3] for h in hits):
+                spec_ok, detail = False, f"gene {g}: returned {hits}"
+        if not corr and not detail:
+            detail = f"model {drv['model']} vs implementation {obs['genes']}"
+        return Judgement(corr, spec_ok, nontrivial=bool(drv["nontrivial"]),
+                         tags=("cp", "tie" if any(drv["ties"]) else "distinct", "eq%d" % len(case["eq"])), detail=detail)
+
+    def judge_runhmmer(self, case: Dict[str, Any], obs: Dict[str, Any], drv: Dict[str, Any]) -> Judgement:
+        model = [m.get("ok") for m in drv["model"]]
+        corr = obs["genes"] == model
+        spec_ok, detail = True, ""
+        if obs["perm_bad"] is not None:
+            spec_ok, detail = False, f"order dependence: {obs['genes']} vs {obs['perm_bad']}"
+        evalue = {tuple(r[:5]): r[5] for r in case["raw"]}
+        for g, hits in enumerate(obs["genes"]):
+            if any(not (h[3] > case["min"]) for h in hits):
+                spec_ok, detail = False, f"a hit at or below the minimum score was returned: {hits}"
+            if any(not (evalue.get((g, *h), case["maxev"]) < case["maxev"]) for h in hits):
+                spec_ok, detail = False, f"a hit at or above the maximum e-value (or not a raw hit) was returned: {hits}"
+        if not corr and not detail:
+            detail = f"model {drv['model']} vs implementation {obs['genes']}"
+        return Judgement(corr, spec_ok, nontrivial=bool(drv["nontrivial"]), tags=("runhmmer",), detail=detail)
+
+    def judge_domains(self, case: Dict[str, Any], obs: Dict[str, Any], drv: Dict[str, Any]) -> Judgement:
+        corr = obs["doms"] == drv["model"] and obs["motifs"] == drv["motifs"]
+        spec_ok, detail = True, ""
+        if obs["perm_bad"] is not None:
+            spec_ok, detail = False, f"order dependence: {obs['doms']} vs {obs['perm_bad']}"
+        if not corr and not detail:
+            detail = f"model {drv['model']} / {drv['motifs']} vs implementation {obs['doms']} / {obs['motifs']}"
+        return Judgement(corr, spec_ok, nontrivial=bool(drv["nontrivial"]), tags=("domains",), detail=detail)
+
+    def judge_subtypes(self, case: Dict[str, Any], obs: Dict[str, Any], drv: Dict[str, Any]) -> Judgement:
+        corr = obs["out"] == drv["model"] and obs["internal"] == drv["internal"]
+        spec_ok, detail = True, ""
+        if obs["perm_bad"] is not None:
+            spec_ok, detail = False, f"order dependence: {obs['out']} vs {obs['perm_bad']}"
+        # every attached sub-type hit overlaps its target domain
+        for g, doms in enumerate(case["existing"]):
+            targets = [d for d in doms if d[0] == case["target"]]
+            for d, hits in zip(targets, obs["internal"][g]):
+                if any(not (d[2] > h[1] and h[2] > d[1]) for h in hits):
+                    spec_ok, detail = False, f"sub-type hit outside its domain {d}: {hits}"
+        if not corr and not detail:
+            detail = f"model {drv['model']} / {drv['internal']} vs implementation {obs['out']} / {obs['internal']}"
+        return Judgement(corr, spec_ok, nontrivial=bool(drv["nontrivial"]),
+                         tags=("subtypes", "callback" if case["callback"] else "plain"), detail=detail)
+
     # ------------------------------------------------------------------ shrinking
     def shrink(self, case: Dict[str, Any]) -> Iterator[Dict[str, Any]]:
         kind = case["kind"]
@@ -667,6 +1075,16 @@ class C13(Property):
             for gi, g in enumerate(case["genes"]):
                 if len(case["genes"]) > 1:
                     yield dict(case, genes=case["genes"][:gi] + case["genes"][gi + 1:])
+                for i in range(len(g)):
+                    yield dict(case, genes=case["genes"][:gi] + [g[:i] + g[i + 1:]] + case["genes"][gi + 1:])
+            return
+        if kind in ("cp", "runhmmer"):
+            raw = case["raw"]
+            for i in range(len(raw)):
+                yield dict(case, raw=raw[:i] + raw[i + 1:])
+            return
+        if kind in ("domains", "subtypes"):
+            for gi, g in enumerate(case["genes"]):
                 for i in range(len(g)):
                     yield dict(case, genes=case["genes"][:gi] + [g[:i] + g[i + 1:]] + case["genes"][gi + 1:])
             return
